@@ -365,7 +365,45 @@ func (fr *Frame) builtin(b *ssa.Builtin, x *ssa.Call, st *State, reach string) V
 // quantified helper: forall j in [lo,hi) (absolute index into array A): body(j)
 func qAbs(c *Ctx, A, lo, hi string, body func(j string) string) string {
 	j := c.fresh("qj")
-	return "(forall ((" + j + " Int)) (! (=> (and (<= " + lo + " " + j + ") (< " + j + " " + hi + ")) " + body(j) + ") :pattern ((select " + A + " " + j + "))))"
+	inner := "(=> (and (<= " + lo + " " + j + ") (< " + j + " " + hi + ")) " + body(j) + ")"
+	if c.patternable(A) {
+		return "(forall ((" + j + " Int)) (! " + inner + " :pattern ((select " + A + " " + j + "))))"
+	}
+	return "(forall ((" + j + " Int)) " + inner + ")"
+}
+
+// patternable: explicit patterns are only attached to reads of declared (not macro-defined) arrays,
+// and of heap-field reads over such arrays; a define-fun expands into ite terms z3 rejects in patterns.
+func (c *Ctx) patternable(A string) bool {
+	if isAtom(A) {
+		return c.declared[A]
+	}
+	if strings.HasPrefix(A, "(select ") {
+		parts := splitSexp(A[8 : len(A)-1])
+		if len(parts) == 2 && isAtom(parts[0]) && c.declared[parts[0]] && c.termPlain(parts[1]) {
+			return true
+		}
+	}
+	return false
+}
+
+func (c *Ctx) termPlain(t string) bool {
+	if isAtom(t) {
+		if _, isNum := litInt(t); isNum {
+			return true
+		}
+		return c.declared[t]
+	}
+	if strings.HasPrefix(t, "(+ ") || strings.HasPrefix(t, "(- ") || strings.HasPrefix(t, "(* ") || strings.HasPrefix(t, "(select ") {
+		k := strings.IndexByte(t, ' ')
+		for _, p := range splitSexp(t[k+1 : len(t)-1]) {
+			if !c.termPlain(p) {
+				return false
+			}
+		}
+		return true
+	}
+	return false
 }
 
 func (fr *Frame) external(callee *ssa.Function, x *ssa.Call, args []Val, st *State, reach string) Val {
